@@ -1,5 +1,115 @@
-(* C15 — placeholder while the proofs are being written. *)
-From FH Require Import Model.Base Model.Shutdown.
+(* C15 — Shutdown is graceful.  Statements only; proofs in Proof/ShutdownProof.v (counting invariant) and Proof/ShutdownGraceful.v.
+   [reach cf s]: s is reachable from the fresh server by any interleaving of the atomic steps of the Serve accept loops, the
+   connection goroutines (request loop of serveConnCounted, serveConnCleanup), ShutdownWithContext (stop flag, closeListenersLocked,
+   close(s.done), loop { closeIdleConns; serving / open check; ticker | ctx.Done }), clients (send, close) and the clock, for any
+   number of Serve calls and connections.  [greach]: the same, restricted by `guard` (Model/Shutdown.v): no closeIdleConns pass
+   meets a connection with request data in hand. *)
+From FH Require Import Model.Base Model.Shutdown Spec.ShutdownSpec Proof.ShutdownProof Proof.ShutdownGraceful.
 Open Scope Z_scope.
-Example C15_ex_trivial : step (mkCfg false false) init LSetStop = Some (set_sd init SReturnedNil).
+
+(* After Shutdown returned nil: every listener is closed, every Serve call has returned, no request handler is running (handlers
+   abandoned by TimeoutHandler and hijack handlers are not threads of the model), no connection is counted, the stop flag is reset.
+   This uses that s.serving is read before s.open; no assumption on the listener is needed for this direction. *)
+Theorem C15_returns_after_handlers : forall cf s, reach cf s -> sd s = SReturnedNil -> at_rest s.
+Proof. exact returns_at_rest. Qed.
+Print Assumptions C15_returns_after_handlers.
+
+(* "Serve has returned" as a statement of its own.  That Serve returns AT ALL after the listener was closed (so that Shutdown can return)
+   is the step LAcceptFail: ln.Accept() fails once ln.Close() was called - an assumption on the net.Listener / the OS. *)
+Theorem C15_serve_returned : forall cf s, reach cf s -> sd s = SReturnedNil ->
+  Forall (fun lp => lrunning lp = false /\ lnopen lp = false) (loops s) /\ serving s = 0.
+Proof. intros cf s R H. destruct (returns_at_rest cf s R H) as (_ & Hl & _ & _ & Hs & _). split; assumption. Qed.
+Print Assumptions C15_serve_returned.
+
+(* Requests' Done channels: s.done is closed from close(s.done) on, for as long as Shutdown runs and after it returned. *)
+Theorem C15_done_closed : forall cf s, reach cf s -> done_must_be_closed s -> doneClosed s = true.
+Proof. exact done_closed'. Qed.
+Print Assumptions C15_done_closed.
+
+(* ... and the stop flag that ends the request loops is set exactly while Shutdown runs *)
+Theorem C15_stop_flag : forall cf s, reach cf s -> stop s = sd_active (sd s).
+Proof. exact stop_flag. Qed.
+Print Assumptions C15_stop_flag.
+
+(* Every started handler is accounted for at every moment: delivered, still in the writer, in progress, undeliverable because the client
+   went away, or undeliverable because of the server (lost). *)
+Theorem C15_handler_accounting : forall cf s, reach cf s -> Forall cwf (conns s).
+Proof. exact accounting. Qed.
+Print Assumptions C15_handler_accounting.
+
+(* Full statement: "every request whose handler started before or during shutdown had its response written (on a connection the server had
+   not closed)".  It is FALSE of the code (finding closeidle-closes-conn-with-request-in-hand, reproduced on the real server by the harness).
+   The second way it used to fail - the stop check dropping an unflushed pipelined response - is repaired (66dbd41) and modelled as repaired;
+   C15_ex_unflushed_is_flushed_now replays that schedule. *)
+Theorem C15_started_handlers_answered_refuted_closeidle :
+  exists s, reach (mkCfg false false) s /\ sd s = SReturnedNil /\ exists r, In r (conns s) /\ dropped_response r.
+Proof. eapply refuted_spec. exact refuted_closeidle. Qed.
+Print Assumptions C15_started_handlers_answered_refuted_closeidle.
+
+(* It holds on the schedules the guard leaves: at every moment nothing is lost by the server's doing, a finished connection has all its
+   started handlers answered (or the client had closed), and so has every connection when Shutdown returns nil. *)
+Theorem C15_started_handlers_answered_guarded : forall cf s, greach cf s ->
+  Forall (fun r => lost r = 0) (conns s) /\ Forall (fun r => pc r = CClosed -> answered r) (conns s) /\
+  (sd s = SReturnedNil -> Forall answered (conns s)).
+Proof.
+  intros cf s G. split; [exact (nothing_lost cf s G)|]. split; [exact (answered_on_guarded_schedules cf s G)|exact (answered_at_return cf s G)].
+Qed.
+Print Assumptions C15_started_handlers_answered_guarded.
+
+(* The guard excludes exactly the step the finding is about (pipelining needs no guard any more), and with ReadTimeout set the witness is not a
+   behaviour. *)
+Theorem C15_guard_is_tight :
+  first_unguarded (mkCfg false false) init unflushed_trace = None /\
+  first_unguarded (mkCfg false false) init closeidle_trace = Some LCloseIdle /\
+  run (mkCfg true false) init closeidle_trace = None.
+Proof. destruct guard_excludes_witnesses as [H1 H2]. split; [exact H1|]. split; [exact H2|exact closeidle_needs_no_deadlines]. Qed.
+Print Assumptions C15_guard_is_tight.
+
+(* Idle keep-alive connections are closed by the next closeIdleConns pass ... *)
+Theorem C15_idle_closed : forall cf s s', step cf s LCloseIdle = Some s' ->
+  forall c r, nth_error (conns s) c = Some r -> idle_keepalive s r ->
+    exists r', nth_error (conns s') c = Some r' /\ srvClosed r' = true /\ pc r' = CPeek /\ buffered r' <= 0.
+Proof. exact idle_closed_by_pass. Qed.
+Print Assumptions C15_idle_closed.
+
+(* ... and are not waited for: such a connection leaves by its own three steps (no client action, no timeout), giving back its unit of s.open.
+   Partial with respect to "Shutdown returns": that needs the remaining handlers to end and Accept to fail after Close (see above);
+   the example below runs a whole shutdown with two idle connections and one running handler without any client or clock label. *)
+Theorem C15_idle_closed_not_waited_partial : forall cf s c r, nth_error (conns s) c = Some r -> pc r = CPeek -> srvClosed r = true -> buffered r <= 0 ->
+  exists s', run cf s [LPeekFail c; LUnregIdle c; LOpenDec c] = Some s' /\ open s' = open s - 1 /\
+             exists r', nth_error (conns s') c = Some r' /\ pc r' = CClosed /\ started r' = started r /\ delivered r' = delivered r.
+Proof. exact closed_idle_conn_exits. Qed.
+Print Assumptions C15_idle_closed_not_waited_partial.
+
+Example C15_ex_graceful :
+  match run (mkCfg false false) init graceful_trace with
+  | Some s1 =>
+      match run (mkCfg false false) s1 graceful_shutdown with
+      | Some s => sd s = SReturnedNil /\ map started (conns s) = [1; 1; 1] /\ map delivered (conns s) = [1; 1; 1]
+                  /\ map srvClosed (conns s) = [true; true; false] /\ n_lost s = 0 /\ doneClosed s = true
+                  /\ first_unguarded (mkCfg false false) init (graceful_trace ++ graceful_shutdown) = None
+      | None => False
+      end
+  | None => False
+  end.
+Proof. exact graceful_example. Qed.
+
+Example C15_ex_unflushed_is_flushed_now :
+  match run (mkCfg false false) init unflushed_trace with
+  | Some s => sd s = SReturnedNil /\ map started (conns s) = [1] /\ map delivered (conns s) = [1] /\ n_lost s = 0
+  | None => False
+  end.
+Proof. exact unflushed_is_flushed_now. Qed.
+
+(* Shutdown on a server on which Serve was never called returns at once; a context that expires gives an error and resets the stop flag *)
+Example C15_ex_no_listener : run (mkCfg false false) init [LSetStop] = Some (set_sd init SReturnedNil).
 Proof. reflexivity. Qed.
+
+Example C15_ex_ctx_expires :
+  match run (mkCfg false false) init
+        [LServeStart; LAccept 0; LOpenInc 0; LSend 0; LRegIdle 0; LSetDeadline 0; LPeekOk 0; LStore0 0; LReadReq 0;
+         LSetStop; LCloseListeners; LAcceptFail 0; LCloseDone; LCloseIdle; LReadServing; LReadOpen; LCtxExpire] with
+  | Some s => sd s = SReturnedErr /\ stop s = false /\ n_handlers s = 1 /\ doneClosed s = true
+  | None => False
+  end.
+Proof. vm_compute. repeat split; reflexivity. Qed.
